@@ -193,6 +193,8 @@ def r09_6(ctx):
             if len(t) != 2:
                 ctx.ob("R09.6", "simd-newline-accounting/%s/result-shape" % name, False, "result is not (bytes scanned, newlines found): " + ret[:120])
                 continue
+            if t[0] == "loop(φ(0))" and t[1] == "loop(φ(0))":
+                continue  # the loop's exit test failed: nothing scanned, nothing counted in this iteration
             mi = re.fullmatch(r"loop\(\(φ\(0\) \+ (.*)\)\)", t[0])
             mn = re.fullmatch(r"loop\(\(φ\(0\) \+ (.*)\)\)", t[1])
             zero = t[1] == "loop(φ(0))"
